@@ -63,7 +63,7 @@ def gen_directed(rng, syms):
     sym = rng.choice(syms)
     a = ('lit', Lit(str(rng.randrange(1, 999)), rng.choice([0, 2]), sym))
     tiny = ('bin', '/', ('lit', Lit(str(rng.randrange(1, 9)), 2, sym)), ('lit', Lit(str(rng.randrange(300, 99999)), 0, None)))
-    k = rng.randrange(13)
+    k = rng.randrange(14)
     other = ('lit', Lit(str(rng.randrange(1, 99)), 0, rng.choice([s for s in syms if s != sym] or syms)))
     grown = ('bin', '*', a, ('lit', Lit('1001', 3, None)))           # a * 1.001: more decimals than displayed
     if k == 6:
@@ -74,6 +74,11 @@ def gen_directed(rng, syms):
         return ('bin', '==', ('bin', '+', ('bin', '-', b, a), a), b)
     if k == 8:
         return ('bin', '+', ('bin', '+', other, a), ('bin', '/', ('lit', Lit(str(rng.randrange(1, 9)), 2, sym)), ('lit', Lit('700', 0, None))))
+    if k == 13:
+        # a commodity that cancels inside a balance: by `+ (-a)` (the slot stays behind, exactly zero) or by `- a` (erased)
+        lhs = ('bin', '+', ('bin', '+', a, other), ('neg', a)) if rng.random() < 0.6 else ('bin', '-', ('bin', '+', a, other), a)
+        rhs = other if rng.random() < 0.7 else ('bin', '+', other, ('bin', '-', a, a))
+        return ('bin', rng.choice(['==', '!=']), lhs, rhs) if rng.random() < 0.7 else ('bin', rng.choice(['==', '!=']), rhs, lhs)
     if k in (9, 10, 11, 12):
         # ordering at the boundary: a BALANCE-typed value (an amount plus a plain zero, or two commodities) against an
         # amount or plain number that equals one of its components exactly, or lies just beside it
@@ -237,6 +242,10 @@ def oeval(t):
             raise Skip()
         c = ca if ca is not None else cb
         return ('num', ostrip({c: (qa * qb if op == '*' else qa / qb)}), 'amt')
+    # (in)equality where two or more commodities are involved on a side (a balance-typed operand): the exact values decide
+    ca_s, cb_s = comms(t[2]), comms(t[3])
+    if op in ('==', '!=') and da and db and None not in (ca_s | cb_s) and max(len(ca_s), len(cb_s)) >= 2:
+        return ('bool', (da == db) if op == '==' else (da != db))
     # comparisons: only single-commodity, commodity-compatible operands are determined ...
     if len(da) > 1 or len(db) > 1:
         # ... and a multi-commodity balance against a plain number, where every component stands on the same side of it
@@ -256,6 +265,8 @@ def oeval(t):
     if len((ca_s | cb_s) - {None}) > 1:
         raise Skip()
     if op in ('==', '!=') and ca_s != cb_s:
+        # the written commodities differ; where a commodity has cancelled on a side that involved two or more, the exact
+        # values decide (equality "on exact values ... for multi-commodity balances alike")
         raise Skip()
     ca = next(iter(da), None) if da else 'zero'
     cb = next(iter(db), None) if db else 'zero'
@@ -398,8 +409,22 @@ def judge(t, impl):
             return None      # an operand-type combination ledger does not support: no value is altered
         return ('impl=%s' % got[1], str(want[:2]))
     if got[0] != want[0] or got[1] != want[1]:
+        if t[0] == 'bin' and t[1] in ('==', '!=') and cancelled_slot(t):
+            return ('wrong-value:cancelled-commodity-slot', str(want[:2]))
         return ('wrong-value', str(want[:2]))
     return None
+
+
+def cancelled_slot(t):
+    """an (in)equality one side of which mentions a commodity that has cancelled exactly (its slot may stay in the balance)"""
+    for side in (t[2], t[3]):
+        try:
+            v = oeval(side)
+        except (Skip, ZeroDivisionError):
+            continue
+        if v[0] == 'num' and len(comms(side) - {None}) > len([c for c in v[1] if c is not None]):
+            return True
+    return False
 
 
 def minimal_failure(ctx, journal, pool, t):
